@@ -4,7 +4,7 @@
 
   What is modelled
   * A store of *cells with identity* (`Addr`): process-lifetime cells (`ClassCell`: the class-level
-    collections `Request.hooks/error_page/namespaces/toolmaps/params/headers/header_list/cookie`,
+    collections `Request.hooks/error_page/namespaces/toolmaps/params/headers/header_list/cookie/local/remote`,
     `Response.headers/cookie/header_list`, `Entity.processors/attempt_charsets`, the application- and
     WSGI-level class dicts, the global config, and the collections of the default request/response
     objects that `cherrypy.serving` falls back to when nothing is loaded) and per-request cells
@@ -34,7 +34,7 @@ namespace CpModel.Isolation
 /-- Process-lifetime collections. -/
 inductive ClassCell where
   | reqHooks | reqHookLists | reqErrorPage | reqNamespaces | reqToolmaps | reqParams | reqHeaders
-  | reqHeaderList | reqCookie | respHeaders | respCookie | respHeaderList
+  | reqHeaderList | reqCookie | reqLocal | reqRemote | respHeaders | respCookie | respHeaderList
   | entProcessors | entAttemptCharsets | partAttemptCharsets
   | appConfig | appNamespaces | appToolboxes | wsgiPipeline | wsgiConfig | hookKwargs | globalConfig
   | defReq | defResp | defReqErrorPage | defReqNamespaces | defRespHeaders | defRespCookie | defRespBody
@@ -45,14 +45,14 @@ inductive ClassCell where
 inductive Slot where
   | reqObj | respObj | bodyObj
   | hooks | hookLists | errorPage | namespaces | toolmaps | toolmapTools
-  | params | headers | headerList | cookie | config
+  | params | headers | headerList | cookie | config | uniqueId | local | remote
   | respHeaders | respCookie | respBody
   | processors | attemptCharsets | bodyParams | parts | bodyHeaders | requestParams
   deriving DecidableEq, Repr, Inhabited
 
 def Slot.all : List Slot :=
   [.reqObj, .respObj, .bodyObj, .hooks, .hookLists, .errorPage, .namespaces, .toolmaps, .toolmapTools,
-   .params, .headers, .headerList, .cookie, .config, .respHeaders, .respCookie, .respBody,
+   .params, .headers, .headerList, .cookie, .config, .uniqueId, .local, .remote, .respHeaders, .respCookie, .respBody,
    .processors, .attemptCharsets, .bodyParams, .parts, .bodyHeaders, .requestParams]
 
 theorem Slot.mem_all (s : Slot) : s ∈ Slot.all := by cases s <;> decide
